@@ -166,6 +166,28 @@ func (e *Exec) eval(ctx *evalCtx, x Expr, want types.Type) Val {
 	case *ECall:
 		return e.evalCall(ctx, x, want)
 	case *EForall:
+		if x.In != nil {
+			sv := e.eval(ctx, x.In, nil)
+			slt, ok := under(sv.Typ).(*types.Slice)
+			if !ok || len(sv.T) != 4 {
+				fail("forall-in needs a slice")
+			}
+			bn := e.freshName("q:p")
+			ev := e.ctxLoad(ctx, e.elemLoc(sv.T[0], bn, slt.Elem()))
+			if ctx.scope == nil {
+				ctx.scope = map[string]Val{}
+			}
+			saved, had := ctx.scope[x.Var]
+			ctx.scope[x.Var] = ev
+			body := e.eval(ctx, x.Body, types.Typ[types.Bool])
+			if had {
+				ctx.scope[x.Var] = saved
+			} else {
+				delete(ctx.scope, x.Var)
+			}
+			rng := tAnd(app("bvule", sv.T[1], bn), app("bvult", bn, app("bvadd", sv.T[1], sv.T[2])))
+			return Val{T: []string{fmt.Sprintf("(forall ((%s (_ BitVec 64))) (! (=> %s %s) :pattern (%s)))", bn, rng, body.T[0], ev.T[0])}, Typ: types.Typ[types.Bool]}
+		}
 		t := e.lookupType(x.Type)
 		if x.Type == "ghostint" {
 			t = ghostIntT
@@ -226,6 +248,14 @@ func (e *Exec) evalIdent(ctx *evalCtx, name string, want types.Type) Val {
 	if !ctx.inOld {
 		if v, ok := ctx.st.ghost[name]; ok {
 			return v
+		}
+	}
+	if ctx.fr != nil && ctx.inOld {
+		// old() only rewinds the heap: local variables keep their current value
+		if _, isParam := ctx.fr.params[name]; !isParam {
+			if v, ok := ctx.fr.vars[name]; ok {
+				return v
+			}
 		}
 	}
 	if ctx.fr != nil && !ctx.inOld {
